@@ -32,8 +32,25 @@ NOT_DECIDED = ('Kind/shape/key equality with segyio, which line numbers a steppe
 WIRING = {'iline': 'IL', 'xline': 'XL', 'depth_slice': 'Z'}
 
 
+def header_location(ctx):
+    """C13.7: f.header[i] and f.attributes(word) read stored header array j at the offset the reader derives; they are the
+    segyio values only if that is where the writers put array j: bytes per array written by both converters = the
+    reader's stride for the stamped version (both residues of the array length mod 512), and array j is looked up at
+    DISK*(header blocks + data blocks) + j*stride (rules C03.5 / C03.11 restricted to the converters and the reader)."""
+    from .. import headerrules as HR
+    from .. import wiring as WR
+    from .c03 import check_footer
+    P, G = ctx.P, ctx.G
+    ctx.rule('C13.7', 'header[] / attributes(): stored header array j is read where the converters wrote it (stride and base offset)')
+    ht = HR.HeaderTable(P, G)
+    check_footer(ctx, ht, 'C13.7', select=lambda f: f.module.name == 'conversion' and f.name == 'write_headers')
+    WR.footer_location(ctx, ht, 'C13.7')
+    ctx.floor('C13.7', 4, 'footer writers and location facts')
+
+
 def run(ctx):
     P, G = ctx.P, ctx.G
+    header_location(ctx)
     ctx.rule('C13.1', 'accessor triples carry one axis; emulator binds accessors to the attribute of that axis')
     ctx.rule('C13.2', 'default stop of an open-ended line slice lies beyond the last key in the direction of step')
     ctx.rule('C13.3', '2D files: iline / xline / depth_slice refuse with the dimensionality error')
